@@ -7,6 +7,7 @@
 (* Families (field `fam`):                                                 *)
 (*   day      D ts val              val = DenoteDay(D, ts)      C03 C04 C05*)
 (*   dayclock D C ts val            val = day at clock          C05        *)
+(*   daypod   D pod ts val          val = day, part of day kept C04        *)
 (*   clock    C ts latent val       C06                                    *)
 (*   glue     D C ts vd vc vb       C20                                    *)
 (*   crange   ctx D A B ts val      C07 (ctx = date | latent | bare)       *)
@@ -40,6 +41,11 @@ Check(o) ==
          /\ Expect(o, "denote-day", o.val = e \/ o.val = e2, e)
          /\ (o.D.dk \in {"dow", "thisdow", "dom", "doy"} /\ o.D2.dk = "none" /\ IsTime(o.val) /\ FullyDated(o.val)) =>
                Expect(o, "nearest-future", NearestFuture(o.D, o.ts, o.val), e)
+    [] o.fam = "daypod" ->
+         \* <day> <part of day>: that day, the written part of day kept (no clock time invented)
+         LET d == DenoteDay(o.D, o.ts)
+             e == MkTime(d.y, d.m, d.d, X, X, X, o.pod) IN
+         Expect(o, "denote-day-pod", o.val = e, e)
     [] o.fam = "dayclock" ->
          LET e == Glue(DenoteDay(o.D, o.ts), DenoteClock(o.C)) IN
          Expect(o, "denote-dayclock", IsTime(o.val) /\ o.val = [e EXCEPT !.M = o.val.M] /\ Nz(o.val.M, 0) = e.M, e)
@@ -56,8 +62,15 @@ Check(o) ==
             [] o.ctx = "latent" -> Expect(o, "clock-range-latent", ClockRangeLatentOK(o.ts, o.A, o.B, o.val), o.A)
             [] o.ctx = "bare" -> Expect(o, "clock-range-bare", ClockRangeBareOK(o.A, o.B, o.val), o.A))
     [] o.fam = "drange" ->
-         LET d1 == DenoteDay(o.D1, o.ts)  d2 == DenoteDay(o.D2, o.ts) IN
-         Expect(o, "date-range", DateRangeOK(d1, d2, o.val), MkInterval(d1, d2))
+         LET d1 == DenoteDay(o.D1, o.ts)  d2 == DenoteDay(o.D2, o.ts)
+             \* "5.3. - 8.3.2029": a start written without a year may take the year of the end (ruleDOYDate)
+             \* when that is a calendar date before the end; the next-occurrence reading is the other denotation
+             sameYear == o.D1.dk = "doy" /\ o.D2.dk = "date" /\ ValidDate(d2.y, o.D1.n2, o.D1.n1)
+                         /\ DateLess(Date(d2.y, o.D1.n2, o.D1.n1), d2) IN
+         Expect(o, "date-range",
+                \/ DateRangeOK(d1, d2, o.val)
+                \/ sameYear /\ o.val = MkInterval(Date(d2.y, o.D1.n2, o.D1.n1), d2),
+                MkInterval(d1, d2))
     [] o.fam = "halfopen" ->
          LET x == PointOf(o.D, o.C, o.ts) IN
          Expect(o, "half-open", IsInterval(o.val) /\
